@@ -19,7 +19,7 @@ PINS = {
             r"loadNodeModules|loadModule|forget|loadModuleFile|createModuleObject|require|Require|getCurrentModulePath)",
             r"require_type_(RequireModule|nodeModuleKey)", r"require_Require"],
     "C02": [r"require_RequireModule_(resolve|resolvePath|loadAsFileOrDirectory|loadAsFile|loadIndex|loadAsDirectory|loadNodeModule|"
-            r"loadNodeModules|getCurrentModulePath)", r"require_(isFileOrDirectoryPath|filepathClean|DefaultPathResolver)"],
+            r"loadNodeModules|getCurrentModulePath)", r"require_(isFileOrDirectoryPath|filepathClean|DefaultPathResolver|DefaultSourceLoader)"],
     "C03": [EL_QUEUE, EL_STOP, r"eventloop_EventLoop_Terminate", EL_TYPES],
     "C04": [EL_QUEUE, r"eventloop_EventLoop_Terminate", EL_TYPES],
     "C05": [EL_JOBS, r"eventloop_msToDuration", r"eventloop_EventLoop_(run|Terminate)", EL_TYPES],
